@@ -36,6 +36,7 @@ var queryMenu = []menuT{
 	{"t=/trackID=7", "query-trackid"},
 	{"a=%2F", "query-percent-2F"},
 	{"u=a@b", "query-at-sign"},
+	{"src=rtsp://admin@cam%3A554", "query-embedded-url"}, // a proxy-style query: "://", "@" and an escape after it
 }
 
 var authMenu = []menuT{
